@@ -79,7 +79,10 @@ def parse_dump(text):
 
 
 def _is_compile_reject(r):
-    return core.compile_rejected(r)
+    # strict on purpose: a `run` that dies while LOADING an imported module's bytecode file also exits 1 without a
+    # run-time report, and that is exactly what C04 / C18 look for — only a failure that carries compiler diagnostics
+    # puts a program outside the domain (two compile failures compare equal anyway)
+    return core.compile_rejected(r) and core.has_compile_diagnostics(r.out + r.err)
 
 
 def _step(side, stage, argv, d, cpu, dump=False):
